@@ -546,6 +546,7 @@ type State struct {
 	heaps map[string]Term     // heap arrays by key; missing = version "base" of that key
 	base  int                 // epoch of untouched heaps (0 = function entry)
 	alloc Term                // allocation counter
+	ghost map[string]Term     // ghost call counters (called(f))
 }
 
 func (s *State) clone() *State {
@@ -555,6 +556,12 @@ func (s *State) clone() *State {
 	}
 	for k, v := range s.heaps {
 		n.heaps[k] = v
+	}
+	if s.ghost != nil {
+		n.ghost = make(map[string]Term, len(s.ghost))
+		for k, v := range s.ghost {
+			n.ghost[k] = v
+		}
 	}
 	return n
 }
